@@ -110,6 +110,10 @@ var c07Items = []c07Item{
 		return (a - b) / (a + 1), ok
 	}},
 	{"sum(v) * sum(v) AS sq", "sq", func(g c07Group) (float64, bool) { a, ok := agg1(ref.Sum, g.V); return a * a, ok }},
+	// one aggregate call followed by an operator and a parenthesised tail (the item ends in ')')
+	{"sum(v) * (1 + 1) AS p2", "p2", func(g c07Group) (float64, bool) { a, ok := agg1(ref.Sum, g.V); return a * 2, ok }},
+	{"avg(v) - (3) AS p3", "p3", func(g c07Group) (float64, bool) { a, ok := agg1(ref.Mean, g.V); return a - 3, ok }},
+	{"(1 + 1) * sum(v) AS p4", "p4", func(g c07Group) (float64, bool) { a, ok := agg1(ref.Sum, g.V); return a * 2, ok }},
 	// a column whose name has an upper-case letter
 	{"max(vLoad) - avg(vLoad) AS ml", "ml", func(g c07Group) (float64, bool) {
 		a, ok := agg1(ref.Max, g.V)
@@ -244,7 +248,7 @@ func hasAll(items []int, need []int) bool {
 }
 
 func c07Progs(tier string) []c07Prog {
-	itemSets := [][]int{{0}, {1}, {2}, {3}, {4}, {5}, {6}, {8}, {9}, {10}, {11}, {12}, {13}, {14}, {0, 7}, {0, 1, 4}, {7, 0, 2}, {0, 6, 7}, {8, 4}, {14, 0}, {9, 10, 12}, {11, 0}, {13, 5}, {15}, {16}, {15, 0, 16}, {17}, {17, 0}}
+	itemSets := [][]int{{0}, {1}, {2}, {3}, {4}, {5}, {6}, {8}, {9}, {10}, {11}, {12}, {13}, {14}, {0, 7}, {0, 1, 4}, {7, 0, 2}, {0, 6, 7}, {8, 4}, {14, 0}, {9, 10, 12}, {11, 0}, {13, 5}, {15}, {16}, {15, 0, 16}, {20}, {20, 0}, {17}, {18}, {19}, {17, 0, 19}}
 	var out []c07Prog
 	for _, its := range itemSets {
 		for h := range c07Havings {
